@@ -477,6 +477,97 @@ pub fn run(ctx: &Ctx) -> Report {
   }
   skymap_cases(&mut rep, &mut orc, &mut rng, ctx.n(800, 30_000));
   mom_cases(&mut rep, &mut rng, ctx.n(1_500, 60_000));
+  cli_vcells_cases(&mut rep, &mut rng, ctx.n(250, 4_000));
   rep.notes.push(format!("oracle calls: {}", orc.calls));
   rep
+}
+
+
+/// `moc from vcells [-a] [-s] [-p] [-r] -f <from> -t <to> ascii <depth> <file> ascii` (values proportional to the
+/// area of the cells, the mode used without --density): the text adapter turns every line (uniq, value) into
+/// (uniq, value, density) and hands the list to the selection; the MOC printed must be the one the selection
+/// returns on the triples computed in the same way (dyadic values; maps whose cells are up to 3 levels coarser
+/// than the requested depth)
+fn cli_vcells_cases(rep: &mut Report, rng: &mut Rng, n: u64) {
+  use moc::deser::ascii::from_ascii_ivoa;
+  use moc::moc::{CellOrCellRangeMOCIntoIterator, CellOrCellRangeMOCIterator, RangeMOCIterator};
+  let bin = match std::env::var("VERIF_BIN_DIR") {
+    Ok(b) => std::path::PathBuf::from(b).join("moc"),
+    Err(_) => return,
+  };
+  if !bin.exists() {
+    rep.count("cli:not-built");
+    return;
+  }
+  let scratch = std::env::var("VERIF_SCRATCH").unwrap_or_else(|_| std::env::temp_dir().display().to_string());
+  let _ = std::fs::create_dir_all(&scratch);
+  let inp = format!("{}/c20_vcells.txt", scratch);
+  for _ in 0..n {
+    let dm = rng.range(0, 3) as u8;
+    let cells = gen_map(rng, dm);
+    if cells.is_empty() {
+      continue;
+    }
+    let apc = (std::f64::consts::PI / 3.0) / (1u64 << ((dm as u32) << 1)) as f64;
+    let scale = *rng.pick(&[1.0f64, 0.125, 0.5]);
+    let triples: Vec<(u64, f64, f64)> = cells
+      .iter()
+      .map(|c| {
+        let nsub = (1u64 << (((dm - c.d) as u32) << 1)) as f64;
+        let val = (c.v as f64) * scale;
+        (uniq(c.d, c.i), val, val / (nsub * apc))
+      })
+      .collect();
+    let total: f64 = triples.iter().map(|t| t.1).sum();
+    // thresholds on the cumulative sums (densest first or last) and between them
+    let mut sorted = triples.clone();
+    sorted.sort_by(|a, b| b.2.partial_cmp(&a.2).unwrap());
+    let mut cums: Vec<f64> = vec![0.0];
+    let mut acc = 0.0;
+    for t in &sorted {
+      acc += t.1;
+      cums.push(acc);
+    }
+    let pick = |rng: &mut Rng| -> f64 { if rng.chance(2, 3) { *rng.pick(&cums) } else { total * (rng.below(8) as f64) / 8.0 } };
+    let (a, b) = (pick(rng), pick(rng));
+    let (from, to) = if a <= b { (a, b) } else { (b, a) };
+    let (asc, strict, no_split, rev) = (rng.chance(1, 3), rng.chance(1, 2), rng.chance(1, 2), rng.chance(1, 3));
+    std::fs::write(&inp, triples.iter().map(|t| format!("{} {}\n", t.0, t.1)).collect::<String>()).unwrap();
+    let mut args: Vec<String> = vec!["from".into(), "vcells".into()];
+    if asc { args.push("-a".into()); }
+    if !strict { args.push("-s".into()); }
+    // the flag `-p` (long name `--no-split`) ENABLES the recursive split: its help text says so and the code passes `!split`
+    if !no_split { args.push("-p".into()); }
+    if rev { args.push("-r".into()); }
+    args.extend(["-f".to_string(), format!("{}", from), "-t".to_string(), format!("{}", to), "ascii".to_string(), dm.to_string(), inp.clone(), "ascii".to_string()]);
+    let case = format!("CLI moc {} # rows={:?}", args.join(" "), triples.iter().map(|t| (t.0, t.1)).collect::<Vec<_>>());
+    rep.evaluations += 1;
+    rep.count("cli:from-vcells-ascii");
+    let t2 = triples.clone();
+    let direct = catch(move || valued_cells_to_moc_with_opt(dm, t2, from, to, asc, strict, no_split, rev).iter().map(|x| (x.start, x.end)).collect::<Vec<(u64, u64)>>());
+    let d = match direct {
+      Ok(d) => d,
+      Err(_) => {
+        rep.count("cli:selection-itself-fails(not judged here)");
+        continue;
+      }
+    };
+    match std::process::Command::new(&bin).args(&args).output() {
+      Ok(o) => {
+        let text = String::from_utf8_lossy(&o.stdout).to_string();
+        let got = from_ascii_ivoa::<u64, moc::qty::Hpx<u64>>(&text).map(|m| m.into_cellcellrange_moc_iter().ranges().into_range_moc().moc_ranges().iter().map(|r| (r.start, r.end)).collect::<Vec<(u64, u64)>>()).map_err(|e| format!("{:?}", e));
+        match got {
+          Ok(g) if o.status.success() => {
+            if g != d {
+              rep.violation("`moc from vcells ... ascii` does not print the selection of its lines", &case, &ranges_str(&g), &ranges_str(&d), "C20 (the text front end hands the map to the selection unchanged) + C20_selection_*");
+            } else if triples.len() >= 2 && from < to {
+              rep.nontrivial(&case);
+            }
+          }
+          other => rep.violation("`moc from vcells ... ascii` fails on a map the selection accepts", &case, &format!("exit {:?} {:?} {}", o.status.code(), other.map(|x| x.len()), String::from_utf8_lossy(&o.stderr).chars().take(200).collect::<String>()), &ranges_str(&d), "C20"),
+        }
+      }
+      Err(e) => rep.notes.push(format!("moc could not be run: {}", e)),
+    }
+  }
 }
